@@ -5,7 +5,7 @@ from hypothesis import strategies as st
 
 from ..core import Clause, Violation, guard
 from .. import oracles as O
-from ..harness import Patched, params
+from ..harness import Patched, params, npcosts
 
 PROPERTY = "C03"
 LEVEL = "exploration"
@@ -148,7 +148,7 @@ def ranked_population(draw):
     # a second generation on the same objects: some members are moved IN PLACE (coordinate by coordinate, as the swarm
     # operators and the clip step do) onto the design of another member, then the population is ranked and cut again
     moves = draw(st.lists(st.tuples(st.integers(0, len(seq) - 1), st.integers(0, len(seq) - 1)), max_size=3))
-    return {"pool": pool, "seq": seq, "k": k, "moves": [list(mv) for mv in moves]}
+    return {"pool": pool, "seq": seq, "k": k, "moves": [list(mv) for mv in moves], "np": draw(st.booleans())}
 
 
 def _verify_truncations(case, pool, seq, pop, sel, classes, tag):
@@ -216,7 +216,7 @@ def check_truncate(case):
         pop = []
         for i in seq:
             ind = Individual(list(pool[i]["v"]))
-            ind.costs_signed = list(pool[i]["c"]) + [pool[i]["mk"]]
+            ind.costs_signed = npcosts(list(pool[i]["c"]) + [pool[i]["mk"]], case.get("np"))
             pop.append(ind)
     nt = False
     classes = set()
@@ -230,7 +230,7 @@ def check_truncate(case):
                 for a, b in moves:
                     for t_ in range(len(pop[a].vector)):
                         pop[a].vector[t_] = pool[seq[b]]["v"][t_]
-                    pop[a].costs_signed = list(pool[seq[b]]["c"]) + [pool[seq[b]]["mk"]]
+                    pop[a].costs_signed = npcosts(list(pool[seq[b]]["c"]) + [pool[seq[b]]["mk"]], case.get("np"))
                     seq[a] = seq[b]
             classes.add("moved-in-place")
         nt = _verify_truncations(case, pool, seq, pop, sel, classes, "" if generation == 0 else ":after-move") or nt
